@@ -81,6 +81,9 @@ def judge_crash(rows, stats):
             # generator prologues: what the model refuses, LoadString must refuse
             i_cmp = field(impl, "P:")
             m_cmp = field(model, "P:")
+            if m_cmp == "P:*":          # text too long for the model's parser (see Driver/Crash.lean)
+                m_cmp = i_cmp
+                st["p_not_modelled_long_text"] = st.get("p_not_modelled_long_text", 0) + 1
             g = field(model, "G:")
             if g == "G:err":
                 i_cmp += " " + field(impl, "L:")
@@ -134,9 +137,11 @@ def shrink_repl(op, impl):
 
 
 def judge_eval(rows):
-    """channel eval, read for C01: the class column only. impl class `panic` (or a host
-    panic/death) is a failing input; a class that differs from the VM model's is a
-    correspondence break."""
+    """channel eval, read for C01: per text of the history only "is the outcome a host panic".
+    An implementation panic (or host death) is a failing input; a panic predicted by the VM
+    model that the implementation does not show (or the reverse, caught by the first rule) is a
+    correspondence break. Differences between ok and err are C02's business (its own check
+    compares the full records)."""
     out = []
     for op, impl, model, spec in rows:
         icls = [r.split(" ")[0] for r in impl.split(" ;; ")]
@@ -145,10 +150,10 @@ def judge_eval(rows):
             out.append((op, impl, model, "every text evaluates to a value or an error"))
         elif impl == "hang" or "timeout" in icls or "timeout" in mcls:
             out.append((op, "nonterminating", "nonterminating", "-"))
-        elif icls != mcls:
-            out.append((op, " ".join(icls), " ".join(mcls), "-"))
+        elif "panic" in mcls:
+            out.append((op, "no-panic: " + " ".join(icls), "panic predicted: " + " ".join(mcls), "-"))
         else:
-            out.append((op, " ".join(icls), " ".join(icls), " ".join(icls)))
+            out.append((op, "no-panic", "no-panic", "no-panic"))
     return out
 
 
